@@ -359,12 +359,116 @@ pub fn run_c05(tier: Tier) -> i32 {
     finish_e1_multi(cfgs, rep, "invariant monitor (strictly ascending key tuples, every cell valid for its column) on every state of the DML exploration, live and again after save + reopen. distinct_nontrivial = distinct states")
 }
 
+/// create_table on a package whose _Validation table already has rows for the
+/// table being created (installer databases routinely carry _Validation rows
+/// for tables they do not contain): whatever the answer, a refusal must leave
+/// nothing behind and an acceptance must round-trip.
+fn c04_stale_catalog_rows(rep: &mut Report) -> u64 {
+    use crate::ops::{Harness, Outcome};
+    use crate::snapshot::snapshot;
+    let vrow = |t: &str, c: &str| vec![s(t), s(c), s("N"), Val::Null, Val::Null, Val::Null, Val::Null, Val::Null, Val::Null, Val::Null];
+    let create = Op::CreateTable { name: "New".into(), cols: vec![ColSpec::new("K", Ty::I16).key(), ColSpec::new("S", Ty::Str(8)).nullable().category("Identifier")] };
+    let variants: Vec<(&str, Vec<Vec<Val>>)> = vec![
+        ("first-column", vec![vrow("New", "K")]),
+        ("second-column", vec![vrow("New", "S")]),
+        ("both-columns", vec![vrow("New", "K"), vrow("New", "S")]),
+        ("another-column", vec![vrow("New", "Zz")]),
+    ];
+    let mut n = 0u64;
+    for (label, stale) in &variants {
+        for pre_reopen in [false, true] {
+            n += 1;
+            let doc = serde_json::json!({"kind":"c04-stale","variant":label,"reopen_first":pre_reopen});
+            let mut h = Harness::create(0).expect("create");
+            let mut setup = vec![t1(), ins("T1", vec![vec![i(1), s("a")]]), ins("_Validation", stale.clone())];
+            if pre_reopen {
+                setup.push(Op::Reopen);
+            }
+            let mut ok = true;
+            for op in &setup {
+                if !h.apply(op).is_ok() {
+                    ok = false; // the library may refuse direct catalog edits: nothing to check then
+                    break;
+                }
+            }
+            if !ok || h.pkg.is_none() {
+                continue;
+            }
+            let before = match snapshot(h.p()) {
+                Ok(b) => b,
+                Err(p) => {
+                    rep.violation(format!("stale-validation-rows:{}:panic-reading", label), p, doc);
+                    continue;
+                }
+            };
+            match h.apply(&create) {
+                Outcome::Panic(p) => rep.violation(format!("stale-validation-rows:{}:panic:{}", label, crate::report::panic_site(&p)), format!("create_table on a package with leftover _Validation rows ({}) panicked: {}", label, p), doc),
+                Outcome::Err(e) => {
+                    if h.pkg.is_none() {
+                        rep.violation(format!("stale-validation-rows:{}:package-lost", label), e, doc);
+                        continue;
+                    }
+                    match snapshot(h.p()) {
+                        Err(p) => rep.violation(format!("stale-validation-rows:{}:panic-reading", label), p, doc),
+                        Ok(after) => {
+                            if let Some(d) = before.normalized().diff(&after.normalized()) {
+                                rep.violation(
+                                    format!("error-but-changed:create_table:stale-validation-rows:{}", label),
+                                    format!("_Validation already holds rows for table New ({}); create_table(New) returned Err({}) but the package changed: {}", label, e, d),
+                                    doc,
+                                );
+                                continue;
+                            }
+                            // and what is saved is what was there before
+                            if let Ok(bytes) = h.close_into_inner() {
+                                match Harness::open(bytes) {
+                                    Err(e2) => rep.violation(format!("error-then-unreadable:create_table:stale-validation-rows:{}", label), format!("after the refused create_table the saved package does not reopen: {}", e2), doc),
+                                    Ok(mut h2) => {
+                                        if let Ok(s2) = snapshot(h2.p()) {
+                                            if let Some(d) = before.normalized().diff(&s2.normalized()) {
+                                                rep.violation(format!("error-but-changed-after-reopen:create_table:stale-validation-rows:{}", label), format!("after the refused create_table and a reopen: {}", d), doc);
+                                            }
+                                        }
+                                    }
+                                }
+                            }
+                        }
+                    }
+                }
+                Outcome::Ok => {
+                    // accepted: the table must be there with its schema, now and after reopen
+                    let live = snapshot(h.p());
+                    let has = live.as_ref().map(|s| s.table("New").is_some()).unwrap_or(false);
+                    if !has {
+                        rep.violation(format!("stale-validation-rows:{}:accepted-but-missing", label), "create_table returned Ok but the table is not listed".into(), doc);
+                        continue;
+                    }
+                    let live = live.unwrap();
+                    match h.close_into_inner().and_then(Harness::open) {
+                        Err(e) => rep.violation(format!("stale-validation-rows:{}:accepted-then-unreadable", label), e, doc),
+                        Ok(mut h2) => {
+                            if let Ok(s2) = snapshot(h2.p()) {
+                                if let Some(d) = live.normalized().diff(&s2.normalized()) {
+                                    rep.violation(format!("stale-validation-rows:{}:accepted-but-differs-after-reopen", label), d, doc);
+                                }
+                            }
+                        }
+                    }
+                }
+            }
+        }
+    }
+    n
+}
+
 pub fn run_c04(tier: Tier) -> i32 {
     let mut rep = Report::new("C04", tier, "model_checking");
     e1_common(&mut rep);
+    let nstale = c04_stale_catalog_rows(&mut rep);
+    rep.set("stale_validation_row_scenarios", nstale);
     let menu = invalid_menu();
     let cfgs = dml_configs(tier, "C04", Monitors { unchanged_on_err: true, ..Monitors::default() }, menu, false, if tier.thorough() { -1 } else { -2 });
-    finish_e1_multi(cfgs, rep, "every state of the five DML explorations x the invalid-call menu (names, arity, values in first/middle/last row, duplicate keys, unknown columns, late create-table failures, stream calls); for every call that returns an error: snapshot equal before/after and equal after save + reopen; rejected alphabet operations are checked the same way. distinct_nontrivial = distinct states")
+    finish_e1_multi(cfgs, rep, "every state of the five DML explorations x the invalid-call menu (names, arity, values in first/middle/last row, duplicate keys, unknown columns, late create-table failures, stream calls); for every call that returns an error: snapshot equal before/after and equal after save + reopen; rejected alphabet operations are checked the same way; plus create_table on packages whose _Validation table already has rows for the new table (4 row sets x with/without a reopen in between). distinct_nontrivial = distinct states")
 }
 
 pub fn run_c01(tier: Tier) -> i32 {
@@ -424,9 +528,30 @@ pub fn run_c01(tier: Tier) -> i32 {
         nodedup_depth: 0,
     };
     let ncfg = c01_config_product(tier, &mut rep);
+    // tables named like the streams the string pool is kept in
+    {
+        let k = |name: &str| Op::CreateTable { name: name.into(), cols: vec![ColSpec::new("K", Ty::I16).key(), ColSpec::new("S", Ty::Str(8)).nullable()] };
+        let mut hists: Vec<Vec<Op>> = Vec::new();
+        for name in ["_StringPool", "_StringData"] {
+            hists.push(vec![k(name)]);
+            hists.push(vec![k(name), ins(name, vec![vec![i(5), s("five")]])]);
+            hists.push(vec![t1(), ins("T1", vec![vec![i(1), s("a")]]), k(name), Op::Reopen, ins("T1", vec![vec![i(2), s("b")]])]);
+            hists.push(vec![t1(), ins("T1", vec![vec![i(1), s("a")]]), k(name), Op::DropTable { name: name.into() }, Op::Reopen]);
+            hists.push(vec![t1(), ins("T1", vec![vec![i(1), s("a")]]), Op::Reopen, k(name), Op::Flush, Op::DropTable { name: name.into() }]);
+        }
+        let lcfg = Config { alphabet: vec![], max_depth: 0, monitors: Monitors { model: true, roundtrip: true, ..Monitors::default() }, merge_audits: 0, nodedup_depth: 0, seed: None, setup: vec![], probes: vec![], stream_names: vec![], ..cfg };
+        let fr = crate::e1::fresh(0);
+        for h in &hists {
+            for mut v in crate::e1::linear_history_checks(&lcfg, &fr, h) {
+                v.signature = format!("internal-stream-name:{}", v.signature);
+                rep.violations.push(v);
+            }
+        }
+        rep.set("internal_stream_name_histories", hists.len());
+    }
     rep.set("configuration_product_histories", ncfg);
     rep.set("configuration_product_closes", ncfg * 3);
-    finish_e1(&cfg, rep, "all sequences over tables/rows/streams/summary/code-page operations up to the completed depth; every distinct state is closed in all three ways (flush with the bytes copied while the package is alive = crash right after a successful flush; into_inner; drop), reopened and compared with the observation before closing (\"\" == null), then saved and reopened again without change. Second part, the configuration product: 3 package types x 26 code pages (database and summary) x string classes from that page's repertoire (ASCII, empty, > 64 KiB, non-ASCII single-byte, multi-byte, > 64 KiB multi-byte, strings whose bytes begin like a byte-order mark) x integer boundaries +-32767 / +-2147483647, one history each, closed three ways, decoded independently and reopened. distinct_nontrivial = distinct states")
+    finish_e1(&cfg, rep, "all sequences over tables/rows/streams/summary/code-page operations up to the completed depth; every distinct state is closed in all three ways (flush with the bytes copied while the package is alive = crash right after a successful flush; into_inner; drop), reopened and compared with the observation before closing (\"\" == null), then saved and reopened again without change. Second part, the configuration product: 3 package types x 26 code pages (database and summary) x string classes from that page's repertoire (ASCII, empty, > 64 KiB, non-ASCII single-byte, multi-byte, > 64 KiB multi-byte, strings whose bytes begin like a byte-order mark) x integer boundaries +-32767 / +-2147483647, one history each, closed three ways, decoded independently and reopened. Third part: histories that create (fill, drop) tables named _StringPool / _StringData, the names the string pool's own streams are stored under. distinct_nontrivial = distinct states")
 }
 
 pub fn run_c08(tier: Tier) -> i32 {
